@@ -106,8 +106,22 @@ MNext ==
     \/ \E pm \in MethodsOfKind("sudo"), val \in {0, 1} : Sudo(pm, val)
     \/ \E val \in {0, 1}, s \in Senders : Migrate(val, s)
 
-(* C12 at design level: a handler error leaves the chain state as it was; a success leaves the handler's mark *)
-C12_ErrorChangesNothing == TRUE
+(* C12 at design level: the contract's state is a function of the history -- a handler error (or a refused    *)
+(* operation) leaves no trace, every success leaves exactly its own                                          *)
+MethodOfHist(o) == IF o.op = "instantiate" THEN InstM ELSE IF o.op = "migrate" THEN MigM
+                   ELSE CHOOSE pm \in MethodsOfKind(o.op) : pm.part = o.part /\ pm.m.name = o.method
+OpOk(o) == o.op = "store" \/ (IF o.op \in {"instantiate", "migrate"} THEN MethodOfHist(o).outcome = "ok" ELSE MethodOfHist(o).m.outcome = "ok")
+OkInst == {i \in 1..Len(hist) : hist[i].op = "instantiate" /\ OpOk(hist[i])}
+LastInst == CHOOSE i \in OkInst : \A j \in OkInst : j <= i
+Since == {i \in 1..Len(hist) : i > LastInst /\ OpOk(hist[i])}
+RECURSIVE SumAtoms(_)
+SumAtoms(S) == IF S = {} THEN 0 ELSE LET i == CHOOSE x \in S : TRUE IN AtomOf(hist[i].funds) + SumAtoms(S \ {i})
+C12_ErrorChangesNothing ==
+    /\ ctr.exists = (OkInst # {})
+    /\ ctr.exists =>
+          /\ ctr.count = 1 + Cardinality({i \in Since : hist[i].op \in {"exec", "sudo", "migrate"}})
+          /\ ctr.bal = AtomOf(hist[LastInst].funds) + SumAtoms({i \in Since : hist[i].op = "exec"})
+          /\ ctr.label = hist[LastInst].rawlabel /\ ctr.admin = hist[LastInst].admin
 C12_CountMatchesHistory ==
     ctr.exists => ctr.count >= 1
 =============================================================================
